@@ -8,6 +8,7 @@ import (
 	"sort"
 	"strings"
 
+	"kverif/internal/load"
 	"kverif/internal/oblig"
 	"kverif/internal/rules"
 )
@@ -92,5 +93,85 @@ func cmdSeeds(args []string) int {
 			os.WriteFile(mp, b, 0o644)
 		}
 	}
+	return 0
+}
+
+// cmdCross analyses every seeded change against every registered check (one program load per
+// seed) and writes seeded/MATRIX.json: seed → property → obligations that turn bad.
+func cmdCross(args []string) int {
+	only := ""
+	for _, a := range args {
+		only = a
+	}
+	vd := verifDir()
+	repo := "/repo"
+	runAll := func(ov map[string][]byte) (map[string]map[string]bool, error) {
+		p, err := load.Load(load.Config{Dir: repo, Overlay: ov})
+		if err != nil {
+			return nil, err
+		}
+		out := map[string]map[string]bool{}
+		for _, id := range rules.IDs() {
+			c := rules.Get(id)
+			rep := oblig.NewReport(id, "quick")
+			func() {
+				defer func() {
+					if e := recover(); e != nil {
+						rep.Undecided("checker", "panic", "-", fmt.Sprint(e))
+					}
+				}()
+				c.Run(p, rep)
+			}()
+			out[id] = badKeys(rep)
+		}
+		return out, nil
+	}
+	base, err := runAll(nil)
+	if err != nil {
+		fmt.Println("base failed:", err)
+		return 2
+	}
+	matrix := map[string]map[string][]string{}
+	mpath := filepath.Join(vd, "seeded", "MATRIX.json")
+	if b, err := os.ReadFile(mpath); err == nil && only != "" {
+		json.Unmarshal(b, &matrix)
+	}
+	ents, _ := os.ReadDir(filepath.Join(vd, "seeded"))
+	for _, e := range ents {
+		if !e.IsDir() || (only != "" && !strings.HasPrefix(e.Name(), only)) {
+			continue
+		}
+		v := variant{Name: e.Name(), Kind: "mutant", Patch: filepath.Join("seeded", e.Name(), "patch.diff")}
+		ov, ok, why := overlayFor(v, repo, vd)
+		if !ok {
+			fmt.Printf("%-10s SKIP %s\n", e.Name(), why)
+			continue
+		}
+		got, err := runAll(ov)
+		if err != nil {
+			fmt.Printf("%-10s LOAD-ERROR %v\n", e.Name(), oblig.Short(err.Error(), 200))
+			continue
+		}
+		row := map[string][]string{}
+		var props []string
+		for id, keys := range got {
+			var fresh []string
+			for k := range keys {
+				if !base[id][k] {
+					fresh = append(fresh, k)
+				}
+			}
+			sort.Strings(fresh)
+			if len(fresh) > 0 {
+				row[id] = fresh
+				props = append(props, id)
+			}
+		}
+		sort.Strings(props)
+		matrix[e.Name()] = row
+		fmt.Printf("%-10s %s\n", e.Name(), strings.Join(props, " "))
+	}
+	b, _ := json.MarshalIndent(matrix, "", " ")
+	os.WriteFile(mpath, b, 0o644)
 	return 0
 }
